@@ -29,27 +29,27 @@ Definition mtomb (h : header) : N := N.land (two64 - 2) (mask_of (h_addr_size h)
 
 (* outside the F10 class (midseq_scan) AND no DW_LNE_set_address operand equal to `mt` (the -2 tombstone, which the
    reader drops but the converter keeps); the DWARF tombstone -1 (all ones) is inside the class *)
-Fixpoint plain_scan (mt : N) (is : list insn) (moved : bool) : bool :=
+Fixpoint plain_scan (strict : bool) (mt : N) (is : list insn) (moved : bool) : bool :=
   match is with
   | [] => true
-  | LineSpec.ISetAddress a :: r => negb moved && negb (a =? mt) && plain_scan mt r true
-  | LineSpec.IEndSequence :: r => plain_scan mt r false
+  | LineSpec.ISetAddress a :: r => negb moved && (negb strict || negb (a =? mt)) && plain_scan strict mt r true
+  | LineSpec.IEndSequence :: r => plain_scan strict mt r false
   | LineSpec.ICopy :: r | LineSpec.ISpecial _ :: r | LineSpec.IAdvancePc _ :: r | LineSpec.IConstAddPc :: r
-  | LineSpec.IFixedAddPc _ :: r => plain_scan mt r true
-  | _ :: r => plain_scan mt r moved
+  | LineSpec.IFixedAddPc _ :: r => plain_scan strict mt r true
+  | _ :: r => plain_scan strict mt r moved
   end.
 
 Definition addrs_below (mt : N) (is : list insn) : bool :=
   forallb (fun i => match i with LineSpec.ISetAddress a => negb (a =? mt) | _ => true end) is.
 
-Lemma plain_scan_iff mt : forall is moved,
-  plain_scan mt is moved = negb (midseq_scan is moved) && addrs_below mt is.
+Lemma plain_scan_iff strict mt : forall is moved,
+  plain_scan strict mt is moved = negb (midseq_scan is moved) && (negb strict || addrs_below mt is).
 Proof.
-  induction is as [|i is IH]; intros moved; [reflexivity|].
+  induction is as [|i is IH]; intros moved; [destruct strict; reflexivity|].
   destruct i; cbn [plain_scan midseq_scan addrs_below forallb]; fold (addrs_below mt is);
     rewrite ?IH; try reflexivity.
   destruct moved; cbn [negb andb]; [reflexivity|].
-  destruct (a =? mt); destruct (midseq_scan is true); destruct (addrs_below mt is); reflexivity.
+  destruct strict; destruct (a =? mt); destruct (midseq_scan is true); destruct (addrs_below mt is); reflexivity.
 Qed.
 
 (* ------------------------------------------------------------------ small facts *)
@@ -94,14 +94,29 @@ Definition LIVE (h : header) (r q : row) (base : N) : Prop :=
 Section Sim.
 Variables (dbg be : bool) (sx : secs) (h : header).
 Hypothesis Hh : hdr_ok h.
+Variable strict : bool.     (* true: the -2 operand is excluded from the class; false: only F10 is *)
 
 Definition PS (f : nat) (inp : list byte) (moved : bool) : Prop :=
-  plain_scan (mtomb h) (fst (insns_loop f dbg be h inp)) moved = true.
+  plain_scan strict (mtomb h) (fst (insns_loop f dbg be h inp)) moved = true.
+
+(* the converter returned an event of a GHOST sequence (DW_LNE_set_address -2: dropped by the reader, kept by the
+   converter) while the reader is still skipping: its pending loop continues from (r'', the converter's input) *)
+Definition GH (c0 : cl) (ro : nr_out * lr_state) (ev : clrow) (c' : cl) : Prop :=
+  strict = false /\
+  exists f1' r'' added'',
+    ro = next_row_loop f1' dbg be false h r'' (cl_inp c') added'' false /\
+    (exists extra, cl_files c' = cl_files c0 ++ extra) /\
+    (exists f3' moved', (length (cl_inp c') < f3')%nat /\ PS f3' (cl_inp c') moved' /\
+        ((r_end (cl_row c') = false /\ moved' = true /\ r_tomb r'' = true /\ r_end r'' = false /\
+          (ev = CRSetAddress (mtomb h) /\ cl_st c' = CSConvertRow \/
+           (exists w, ev = CRRow w) /\ cl_st c' = CSReadRow /\ cl_addr c' = None)) \/
+         (r_end (cl_row c') = true /\ r'' = row_new h /\ cl_st c' = CSReadRow /\ exists off, ev = CREndSequence off))).
 
 (* what one reader call and one converter call, started in related states, return *)
 Definition sim_post (base_in : N) (moved_in : bool) (c0 : cl) (ro : nr_out * lr_state) (co : rr_out) : Prop :=
   match ro, co with
   | (NRow, st'), (Ok (Some ev), c') =>
+      GH c0 ro ev c' \/
       let r' := st_row st' in
       exists base',
         cl_inp c' = st_inp st' /\ st_inseq st' = negb (r_end r') /\ LIVE h r' (cl_row c') base' /\
@@ -113,7 +128,7 @@ Definition sim_post (base_in : N) (moved_in : bool) (c0 : cl) (ro : nr_out * lr_
          else (ev = CRSetAddress base' /\ cl_st c' = CSConvertRow /\ moved_in = false) \/
               (base' = base_in /\ cl_st c' = CSReadRow /\ exists w, ev = CRRow w /\ convert_row h c' = Ok w))
   | (NRow, _), (Ok None, _) => False
-  | (NNone, _), (Ok (Some _), _) => False
+  | (NNone, _), (Ok (Some ev), c') => GH c0 ro ev c'
   | (NNone, _), (Ok None, c') => exists extra, cl_files c' = cl_files c0 ++ extra
   | _, _ => True
   end.
@@ -127,6 +142,8 @@ Lemma sim_post_panic b m c0 ro c' : sim_post b m c0 ro (Panic, c').
 Proof. destruct ro as [[| | | |] st]; exact I. Qed.
 Lemma sim_post_fuel b m c0 ro c' : sim_post b m c0 ro (OutOfFuel, c').
 Proof. destruct ro as [[| | | |] st]; exact I. Qed.
+Lemma gh_intro b m c0 ro ev c' : GH c0 ro ev c' -> sim_post b m c0 ro (Ok (Some ev), c').
+Proof. destruct ro as [[| | | |] st]; intros G; cbn; auto; exact I. Qed.
 
 (* execute on a tombstoned reader row keeps it tombstoned *)
 Lemma execute_tomb r i r' x :
@@ -221,11 +238,24 @@ Definition tomb_stmt (f1 : nat) : Prop :=
   sim_post 0 false c0 (next_row_loop f1 dbg be false h r inp added false)
            (read_loop f2 dbg be sx h c true).
 
-Lemma sim_both : forall f1, live_stmt f1 /\ tomb_stmt f1.
+(* inside a sequence whose DW_LNE_set_address operand is -2: reader row tombstoned, converter live on its own *)
+Definition ghost_stmt (f1 : nat) : Prop :=
+  forall f2 f3 r inp added c c0 b m,
+  strict = false ->
+  cl_inp c = inp -> cl_st c = CSReadRow ->
+  (length inp < f2)%nat -> (length inp < f3)%nat ->
+  PS f3 inp true ->
+  r_tomb r = true -> r_end r = r_end (cl_row c) ->
+  (cl_addr c = Some (mtomb h) \/ cl_addr c = None) ->
+  (exists extra, cl_files c = cl_files c0 ++ extra) ->
+  sim_post b m c0 (next_row_loop f1 dbg be false h r inp added false)
+           (read_loop f2 dbg be sx h c false).
+
+Lemma sim_both : forall f1, live_stmt f1 /\ tomb_stmt f1 /\ ghost_stmt f1.
 Proof.
   pose proof Hh as (Hlr & Hmo & Hob & Hsz).
-  induction f1 as [|f1 IHb]; [split; [unfold live_stmt|unfold tomb_stmt]; intros; exact I|].
-  destruct IHb as [IH IHT]. split.
+  induction f1 as [|f1 IHb]; [split; [unfold live_stmt|split; [unfold tomb_stmt|unfold ghost_stmt]]; intros; exact I|].
+  destruct IHb as (IH & IHT & IHG). split; [|split].
   { unfold live_stmt in *.
   intros f2 f3 r inp added inseq c moved base base_in moved_in c0
     Einp Hst Hf2 Hf3 HPS HL Hpend Hmoved Hmi Hfiles Hinseq.
@@ -235,7 +265,7 @@ Proof.
   destruct (parse_insn dbg be h (b :: input)) as [[i rest]|e| |] eqn:EP; try exact I.
   pose proof (parse_insn_good dbg be h (b :: input)) as G. rewrite EP in G. cbn [good] in G.
   destruct G as (Gs & Gl & Gi); cbn [fst snd] in Gs, Gl, Gi.
-  assert (Hscan : plain_scan (mtomb h) (i :: fst (insns_loop f3 dbg be h rest)) moved = true).
+  assert (Hscan : plain_scan strict (mtomb h) (i :: fst (insns_loop f3 dbg be h rest)) moved = true).
   { unfold PS in HPS. rewrite (insns_step dbg be h f3 (b :: input) i rest) in HPS; [exact HPS|discriminate|exact EP]. }
   set (c1 := with_inp rest c).
   destruct HL as (Ht & Eq & Hb & Hm).
@@ -243,7 +273,7 @@ Proof.
   assert (Lr3 : (length rest < f3)%nat) by (cbn [length] in Gl, Hf3; lia).
   (* every instruction except set_address / define_file *)
   assert (D : forall i0 moved1, insn_ok h i0 ->
-    plain_scan (mtomb h) (fst (insns_loop f3 dbg be h rest)) moved1 = true ->
+    plain_scan strict (mtomb h) (fst (insns_loop f3 dbg be h rest)) moved1 = true ->
     (forall r', execute dbg h r i0 = Ok (r', XNoRow) ->
         (moved_in = true -> moved1 = true) /\ (moved1 = false -> r_addr r' = 0 /\ moved = false)) ->
     (forall r', execute dbg h r i0 = Ok (r', XRow) -> moved1 = false -> r_end r' = true) ->
@@ -292,20 +322,20 @@ Proof.
       destruct (r_end r') eqn:Ee.
       + pose proof (address_offset_exact (with_row (rebase base r') c1)) as AO.
         destruct (convert_address_offset (with_row (rebase base r') c1)) as [ao|e| |]; try contradiction; try exact I.
-        destruct AO as [-> _]. cbn [sim_post st_row st_inp]. exists base.
+        destruct AO as [-> _]. cbn [sim_post st_row st_inp]. right. exists base.
         split; [reflexivity|]. split; [cbn [st_inseq st_row]; rewrite ?Ee; reflexivity|]. split; [repeat split; assumption|]. split; [exact Hfiles|].
         split; [exists f3, moved1; split; [exact Lr3|split; [exact HS1|intros M; exact (HR r' eq_refl M)]]|].
         rewrite Ee. split; [reflexivity|]. split; [exact Hst|].
         destruct Hpend as [[_ ?]|[_ ?]]; auto.
       + change (cl_addr (with_row (rebase base r') c1)) with (cl_addr c).
         destruct Hpend as [[Ea Emi]|[Ea Eb]]; rewrite Ea.
-        * cbn [sim_post st_row st_inp]. exists base.
+        * cbn [sim_post st_row st_inp]. right. exists base.
           split; [reflexivity|]. split; [cbn [st_inseq st_row]; rewrite ?Ee; reflexivity|]. split; [repeat split; assumption|]. split; [exact Hfiles|].
           split; [exists f3, moved1; split; [exact Lr3|split; [exact HS1|intros M; exact (HR r' eq_refl M)]]|].
           rewrite Ee. left. repeat split; assumption.
         * unfold ret_row.
           destruct (convert_row h (with_st CSReadRow (with_row (rebase base r') c1))) as [w|e| |] eqn:EC; try exact I.
-          cbn [sim_post st_row st_inp]. exists base.
+          cbn [sim_post st_row st_inp]. right. exists base.
           split; [reflexivity|]. split; [cbn [st_inseq st_row]; rewrite ?Ee; reflexivity|]. split; [repeat split; assumption|]. split; [exact Hfiles|].
           split; [exists f3, moved1; split; [exact Lr3|split; [exact HS1|intros M; exact (HR r' eq_refl M)]]|].
           rewrite Ee. right. split; [exact Eb|]. split; [reflexivity|]. exists w. split; [reflexivity|exact EC].
@@ -334,7 +364,6 @@ Proof.
   - (* ISetAddress: the first address of its sequence; not the -2 value *)
     cbn [plain_scan] in Hscan.
     destruct moved; [discriminate Hscan|]. cbn [negb andb] in Hscan.
-    destruct (a =? mtomb h) eqn:Ea; [discriminate Hscan|]. cbn [negb andb] in Hscan.
     destruct (Hmoved eq_refl) as (R0 & B0 & A0). subst base.
     destruct (mtomb_le_mask h Hsz) as [Mm M0]. pose proof (mtomb_succ h Hsz) as Msucc.
     destruct Gi as [Ga _]. unfold amask in Ga.
@@ -342,6 +371,28 @@ Proof.
     assert (Bin : base_in = 0 /\ moved_in = false).
     { split; [destruct Hpend as [[Hp _]|[_ Hp]]; [rewrite A0 in Hp; discriminate Hp|symmetry; exact Hp]|].
       destruct moved_in; [specialize (Hmi eq_refl); discriminate Hmi|reflexivity]. }
+    assert (Ei : inseq = false) by (destruct inseq; [specialize (Hinseq eq_refl); discriminate Hinseq|reflexivity]).
+    destruct (a =? mtomb h) eqn:Ea.
+    { (* the value -2: the reader drops the sequence, the converter keeps it (ghost) *)
+      apply N.eqb_eq in Ea.
+      assert (Es : strict = false) by (generalize Hscan; case strict; cbn [negb orb andb]; [discriminate|reflexivity]).
+      assert (Hscan' : plain_scan strict (mtomb h) (fst (insns_loop f3 dbg be h rest)) true = true).
+      { generalize Hscan. case strict; cbn [negb orb andb]; [discriminate|intros H0; exact H0]. }
+      clear Hscan. rename Hscan' into Hscan.
+      rewrite (set_address_zero dbg h (cl_row c1) Hh Q0).
+      rewrite (ones_sized_ok dbg (h_addr_size h) Hsz). cbv zeta.
+      replace (a =? mask_of (h_addr_size h)) with false by (symmetry; apply N.eqb_neq; lia).
+      cbn [execute]. rewrite R0.
+      replace (a <? 0) with false by (symmetry; apply N.ltb_ge; lia).
+      rewrite (min_tombstone_mtomb dbg h Hsz). cbn [bind].
+      replace (mtomb h <=? a) with true by (symmetry; apply N.leb_le; lia).
+      subst inseq.
+      apply (IHG f2 f3 _ rest _ _ c0 base_in moved_in Es); try reflexivity; try assumption.
+      - change (cl_row c1) with (cl_row c). rewrite Eq. reflexivity.
+      - left. cbn. rewrite Ea. reflexivity. }
+    assert (Hscan' : plain_scan strict (mtomb h) (fst (insns_loop f3 dbg be h rest)) true = true).
+    { generalize Hscan. case strict; cbn [negb orb andb]; intros H0; exact H0. }
+    clear Hscan. rename Hscan' into Hscan. apply N.eqb_neq in Ea.
     destruct (a <? mtomb h) eqn:Elt.
     + (* a live address *)
       rewrite (set_address_zero dbg h (cl_row c1) Hh Q0).
@@ -367,7 +418,6 @@ Proof.
       rewrite (min_tombstone_mtomb dbg h Hsz). cbn [bind].
       replace (mtomb h <=? a) with true by (symmetry; apply N.leb_le; lia).
       destruct Bin as [-> ->].
-      assert (Ei : inseq = false) by (destruct inseq; [specialize (Hinseq eq_refl); discriminate Hinseq|reflexivity]).
       subst inseq.
       apply (IHT f2 f3 _ rest _ _ c0); try reflexivity; try assumption.
       change (cl_row c1) with (cl_row c). rewrite Eq. reflexivity.
@@ -390,20 +440,20 @@ Proof.
     + repeat split; assumption.
     + destruct Hfiles as [extra Hx]. exists (extra ++ [id]). cbn. rewrite Hx, app_assoc. reflexivity. }
   (* ---------------- the tombstoned stretch *)
-  unfold tomb_stmt. intros f2 f3 r inp added c c0 Einp Hst Hf2 Hf3 HPS Ht Hee Hfiles.
+  { unfold tomb_stmt. intros f2 f3 r inp added c c0 Einp Hst Hf2 Hf3 HPS Ht Hee Hfiles.
   destruct f2 as [|f2]; [lia|]. destruct f3 as [|f3]; [lia|].
   cbn [next_row_loop read_loop]. rewrite Einp.
   destruct inp as [|b input]; [exact Hfiles|].
   destruct (parse_insn dbg be h (b :: input)) as [[i rest]|e| |] eqn:EP; try exact I.
   pose proof (parse_insn_good dbg be h (b :: input)) as G. rewrite EP in G. cbn [good] in G.
   destruct G as (Gs & Gl & Gi); cbn [fst snd] in Gs, Gl, Gi.
-  assert (Hscan : plain_scan (mtomb h) (i :: fst (insns_loop f3 dbg be h rest)) true = true).
+  assert (Hscan : plain_scan strict (mtomb h) (i :: fst (insns_loop f3 dbg be h rest)) true = true).
   { unfold PS in HPS. rewrite (insns_step dbg be h f3 (b :: input) i rest) in HPS; [exact HPS|discriminate|exact EP]. }
   set (c1 := with_inp rest c).
   assert (Lr2 : (length rest < f2)%nat) by (cbn [length] in Gl, Hf2; lia).
   assert (Lr3 : (length rest < f3)%nat) by (cbn [length] in Gl, Hf3; lia).
   assert (DT : forall i0 moved1,
-    plain_scan (mtomb h) (fst (insns_loop f3 dbg be h rest)) moved1 = true ->
+    plain_scan strict (mtomb h) (fst (insns_loop f3 dbg be h rest)) moved1 = true ->
     (moved1 = false -> i0 = LineSpec.IEndSequence) ->
     (forall a, i0 <> LineSpec.ISetAddress a) ->
     sim_post 0 false c0
@@ -512,6 +562,148 @@ Proof.
            | |- sim_post _ _ _ ?ro (OutOfFuel, ?c') => exact (sim_post_fuel 0 false c0 ro c')
            end).
     apply (IHT f2 f3 r rest _ (with_file p' ls' id c1) c0); try reflexivity; try assumption.
+    destruct Hfiles as [extra Hx]. exists (extra ++ [id]). cbn. rewrite Hx, app_assoc. reflexivity. }
+  (* ---------------- the ghost stretch (-2): the reader skips, the converter returns events *)
+  unfold ghost_stmt. intros f2 f3 r inp added c c0 b0 m0 Es Einp Hst Hf2 Hf3 HPS Ht Hee Haddr Hfiles.
+  destruct f2 as [|f2]; [lia|]. destruct f3 as [|f3]; [lia|].
+  cbn [next_row_loop read_loop]. rewrite Einp.
+  destruct inp as [|b input]; [exact Hfiles|].
+  destruct (parse_insn dbg be h (b :: input)) as [[i rest]|e| |] eqn:EP; try exact I.
+  pose proof (parse_insn_good dbg be h (b :: input)) as G. rewrite EP in G. cbn [good] in G.
+  destruct G as (Gs & Gl & Gi); cbn [fst snd] in Gs, Gl, Gi.
+  assert (Hscan : plain_scan strict (mtomb h) (i :: fst (insns_loop f3 dbg be h rest)) true = true).
+  { unfold PS in HPS. rewrite (insns_step dbg be h f3 (b :: input) i rest) in HPS; [exact HPS|discriminate|exact EP]. }
+  set (c1 := with_inp rest c).
+  assert (Lr2 : (length rest < f2)%nat) by (cbn [length] in Gl, Hf2; lia).
+  assert (Lr3 : (length rest < f3)%nat) by (cbn [length] in Gl, Hf3; lia).
+  assert (DG : forall i0 moved1,
+    plain_scan strict (mtomb h) (fst (insns_loop f3 dbg be h rest)) moved1 = true ->
+    (moved1 = false -> i0 = LineSpec.IEndSequence) ->
+    (forall a, i0 <> LineSpec.ISetAddress a) ->
+    sim_post b0 m0 c0
+      (match execute dbg h r i0 with
+       | Ok (r', XRow) =>
+           if r_tomb r' && negb (r_end r' && false)
+           then next_row_loop f1 dbg be false h (row_reset h r') rest added false
+           else (NRow, mk_st r' rest added (negb (r_end r')))
+       | Ok (r', XNoRow) => next_row_loop f1 dbg be false h r' rest (LineRd.add_file false i0 added) false
+       | Ok (r', XErr e) => (NErr e, mk_st r' rest (LineRd.add_file false i0 added) false)
+       | Err e => (NErr e, mk_st r rest added false)
+       | Panic => (NPanic, mk_st r rest added false)
+       | OutOfFuel => (NFuel, mk_st r rest added false)
+       end)
+      (match execute dbg h (cl_row c1) i0 with
+       | Err e => (Err e, c1) | Panic => (Panic, c1) | OutOfFuel => (OutOfFuel, c1)
+       | Ok (r', XErr e) => (Err e, with_row r' c1)
+       | Ok (r', XNoRow) => read_loop f2 dbg be sx h (with_row r' c1) false
+       | Ok (r', XRow) =>
+           let c := with_row r' c1 in
+           if false then
+             let c1 := if r_end r' then with_addr None c else c in
+             read_loop f2 dbg be sx h (with_row (row_reset h r') c1) (if r_end r' then false else false)
+           else if r_end r' then
+             match convert_address_offset c with
+             | Ok ao => (Ok (Some (CREndSequence ao)), c) | Err e => (Err e, c)
+             | Panic => (Panic, c) | OutOfFuel => (OutOfFuel, c)
+             end
+           else
+             match cl_addr c with
+             | Some a => (Ok (Some (CRSetAddress a)), with_st CSConvertRow (with_addr None c))
+             | None => ret_row h (with_st CSReadRow c)
+             end
+       end)).
+  { intros i0 moved1 HS1 HM1 Hns.
+    destruct (execute dbg h r i0) as [[r' x]|e| |] eqn:EX; try exact I.
+    destruct x as [| |e]; [| |exact I].
+    - pose proof (execute_tomb r i0 r' XRow Ht Hns EX) as Tr. rewrite Tr. rewrite andb_false_r. cbn [negb andb].
+      destruct (execute dbg h (cl_row c1) i0) as [[q' y]|e| |] eqn:EY;
+        try (match goal with
+             | |- sim_post _ _ _ ?ro (Err ?e, ?c') => exact (sim_post_err b0 m0 c0 ro e c')
+             | |- sim_post _ _ _ ?ro (Panic, ?c') => exact (sim_post_panic b0 m0 c0 ro c')
+             | |- sim_post _ _ _ ?ro (OutOfFuel, ?c') => exact (sim_post_fuel b0 m0 c0 ro c')
+             end).
+      destruct y as [| |e];
+        try (match goal with
+             | |- sim_post _ _ _ ?ro (Err ?e, ?c') => exact (sim_post_err b0 m0 c0 ro e c')
+             end).
+      + destruct (execute_shape r (cl_row c1) i0 r' XRow q' XRow Hns EX EY ltac:(discriminate) ltac:(discriminate) Hee)
+          as [_ Eend].
+        cbv zeta. cbn match.
+        destruct (r_end q') eqn:Eq'.
+        * (* the ghost sequence ends *)
+          assert (Er' : row_reset h r' = row_new h) by (unfold row_reset; rewrite Eend; reflexivity).
+          pose proof (address_offset_exact (with_row q' c1)) as AO.
+          destruct (convert_address_offset (with_row q' c1)) as [ao|e| |]; try contradiction;
+            try (match goal with
+                 | |- sim_post _ _ _ ?ro (Err ?e, ?c') => exact (sim_post_err b0 m0 c0 ro e c')
+                 end).
+          apply gh_intro. split; [exact Es|]. exists f1, (row_reset h r'), added.
+          split; [reflexivity|]. split; [exact Hfiles|].
+          exists f3, moved1. split; [exact Lr3|]. split; [exact HS1|].
+          right. split; [exact Eq'|]. split; [exact Er'|]. split; [exact Hst|]. exists ao. reflexivity.
+        * assert (Em1 : moved1 = true).
+          { destruct moved1; [reflexivity|]. specialize (HM1 eq_refl). subst i0.
+            cbn [execute] in EY. inversion EY; subst. discriminate Eq'. }
+          assert (Trr : r_tomb (row_reset h r') = true /\ r_end (row_reset h r') = false).
+          { unfold row_reset. rewrite Eend. cbn. split; [exact Tr|reflexivity]. }
+          change (cl_addr (with_row q' c1)) with (cl_addr c).
+          destruct Haddr as [Ha|Ha]; rewrite Ha.
+          -- apply gh_intro. split; [exact Es|]. exists f1, (row_reset h r'), added.
+             split; [reflexivity|]. split; [exact Hfiles|].
+             exists f3, moved1. split; [exact Lr3|]. split; [exact HS1|].
+             left. split; [exact Eq'|]. split; [exact Em1|]. split; [exact (proj1 Trr)|]. split; [exact (proj2 Trr)|].
+             left. split; reflexivity.
+          -- unfold ret_row.
+             destruct (convert_row h (with_st CSReadRow (with_row q' c1))) as [w|e| |] eqn:EC;
+               try (match goal with
+                    | |- sim_post _ _ _ ?ro (Err ?e, ?c') => exact (sim_post_err b0 m0 c0 ro e c')
+                    | |- sim_post _ _ _ ?ro (Panic, ?c') => exact (sim_post_panic b0 m0 c0 ro c')
+                    | |- sim_post _ _ _ ?ro (OutOfFuel, ?c') => exact (sim_post_fuel b0 m0 c0 ro c')
+                    end).
+             apply gh_intro. split; [exact Es|]. exists f1, (row_reset h r'), added.
+             split; [reflexivity|]. split; [exact Hfiles|].
+             exists f3, moved1. split; [exact Lr3|]. split; [exact HS1|].
+             left. split; [exact Eq'|]. split; [exact Em1|]. split; [exact (proj1 Trr)|]. split; [exact (proj2 Trr)|].
+             right. split; [exists w; reflexivity|]. split; [reflexivity|exact Ha].
+      + exfalso.
+        destruct (execute_shape r (cl_row c1) i0 r' XRow q' XNoRow Hns EX EY ltac:(discriminate) ltac:(discriminate) Hee)
+          as [Ek _]. discriminate Ek.
+    - pose proof (execute_tomb r i0 r' XNoRow Ht Hns EX) as Tr.
+      destruct (execute dbg h (cl_row c1) i0) as [[q' y]|e| |] eqn:EY;
+        try (match goal with
+             | |- sim_post _ _ _ ?ro (Err ?e, ?c') => exact (sim_post_err b0 m0 c0 ro e c')
+             | |- sim_post _ _ _ ?ro (Panic, ?c') => exact (sim_post_panic b0 m0 c0 ro c')
+             | |- sim_post _ _ _ ?ro (OutOfFuel, ?c') => exact (sim_post_fuel b0 m0 c0 ro c')
+             end).
+      destruct y as [| |e];
+        try (match goal with
+             | |- sim_post _ _ _ ?ro (Err ?e, ?c') => exact (sim_post_err b0 m0 c0 ro e c')
+             end).
+      + exfalso.
+        destruct (execute_shape r (cl_row c1) i0 r' XNoRow q' XRow Hns EX EY ltac:(discriminate) ltac:(discriminate) Hee)
+          as [Ek _]. discriminate Ek.
+      + destruct (execute_shape r (cl_row c1) i0 r' XNoRow q' XNoRow Hns EX EY ltac:(discriminate) ltac:(discriminate) Hee)
+          as [_ Eend].
+        apply (IHG f2 f3 r' rest _ _ c0 b0 m0 Es); try reflexivity; try assumption.
+        destruct moved1; [exact HS1|]. specialize (HM1 eq_refl). subst i0. cbn [execute] in EX. discriminate EX. }
+  destruct i; try (apply (DG _ true Hscan); [discriminate|intros a0; discriminate]).
+  - (* IEndSequence *) apply (DG _ false Hscan); [reflexivity|intros a0; discriminate].
+  - (* ISetAddress: a second set_address of the sequence is F10 *) discriminate Hscan.
+  - (* IDefineFile *)
+    cbn [plain_scan] in Hscan. cbn [execute].
+    destruct (convert_file sx (p_enc (cl_prog c1)) (cl_dirs c1) (cl_ls c1) f) as [[[[name d] info] ls']|e| |];
+      try (match goal with
+           | |- sim_post _ _ _ ?ro (Err ?e, ?c') => exact (sim_post_err b0 m0 c0 ro e c')
+           | |- sim_post _ _ _ ?ro (Panic, ?c') => exact (sim_post_panic b0 m0 c0 ro c')
+           | |- sim_post _ _ _ ?ro (OutOfFuel, ?c') => exact (sim_post_fuel b0 m0 c0 ro c')
+           end).
+    destruct (LineWr.add_file (cl_prog c1) name d info) as [[p' id]|e| |];
+      try (match goal with
+           | |- sim_post _ _ _ ?ro (Err ?e, ?c') => exact (sim_post_err b0 m0 c0 ro e c')
+           | |- sim_post _ _ _ ?ro (Panic, ?c') => exact (sim_post_panic b0 m0 c0 ro c')
+           | |- sim_post _ _ _ ?ro (OutOfFuel, ?c') => exact (sim_post_fuel b0 m0 c0 ro c')
+           end).
+    apply (IHG f2 f3 r rest _ (with_file p' ls' id c1) c0 b0 m0 Es); try reflexivity; try assumption.
     destruct Hfiles as [extra Hx]. exists (extra ++ [id]). cbn. rewrite Hx, app_assoc. reflexivity.
 Qed.
 
@@ -603,13 +795,14 @@ Lemma events_loop_S f c :
   end.
 Proof. reflexivity. Qed.
 
-Lemma sim_rows : forall f1 st c base hasrow moved f3 f2 rs stf evs cf,
+Lemma sim_rows : strict = true -> forall f1 st c base hasrow moved f3 f2 rs stf evs cf,
   INV st c base hasrow moved f3 ->
   rows_loop f1 dbg be false h st = (rs, SEnd, stf) ->
   events_loop f2 dbg be sx h c = (evs, SEnd, cf) ->
   (2 * f1 <= f2)%nat ->
   ev_match (cl_files cf) base hasrow evs rs /\ exists extra, cl_files cf = cl_files c ++ extra.
 Proof.
+  intros Hstrict.
   induction f1 as [|f1 IH]; intros st c base hasrow moved f3 f2 rs stf evs cf
     (I1 & I2 & I3 & I4 & I5 & I6 & I7 & I8) Hr He Hf; [discriminate Hr|].
   destruct f2 as [|[|f2]]; try lia.
@@ -629,6 +822,7 @@ Proof.
   - (* NRow *)
     destruct (rows_loop f1 dbg be false h st') as [[rs0 s0] stf0] eqn:ER. inversion Hr; subst rs s0 stf0. clear Hr.
     destruct co as [[ev|]|e| |]; try discriminate He; [|contradiction].
+    destruct P as [(Gs & _)|P]; [congruence|].
     destruct P as (base' & P1 & P1i & P2 & (ex1 & P3) & (f3' & moved' & P4 & P5 & P6) & P7).
     destruct (r_end (st_row st')) eqn:Ee.
     + (* end of sequence *)
@@ -675,7 +869,7 @@ Proof.
            rewrite M2. apply row_match_app. apply convert_row_match; assumption.
         -- exists (ex1 ++ ex2). rewrite M2, P3, app_assoc. reflexivity.
   - (* NNone *)
-    inversion Hr; subst. destruct co as [[ev|]|e| |]; try discriminate He; [contradiction|].
+    inversion Hr; subst. destruct co as [[ev|]|e| |]; try discriminate He; [destruct P as (Gs & _); congruence|].
     inversion He; subst. split; [reflexivity|]. exact P.
 Qed.
 
@@ -714,7 +908,7 @@ Proof.
   unfold rows_model, rows_full in Hr.
   destruct (rows_loop (S (length (h_program h))) dbg be false h (st_init h (h_program h))) as [[rs1 s1] stf] eqn:ER.
   inversion Hr; subst rs1 s1. unfold events in He.
-  refine (proj1 (sim_rows dbg be sx h Hh (S (length (h_program h))) (st_init h (h_program h)) c0 0 false false
+  refine (proj1 (sim_rows dbg be sx h Hh true eq_refl (S (length (h_program h))) (st_init h (h_program h)) c0 0 false false
                    (S (length (h_program h))) (seq_fuel c0) rs stf evs cf _ ER He _)).
   - unfold INV. cbn [st_init st_inp st_row]. rewrite Er.
     split; [exact Ei|]. split; [exact Est|].
